@@ -766,7 +766,8 @@ bool Net::Send(int p, const std::string& type, std::span<const unsigned char> pa
     node.fPauseSend = false;
     connman().ProcessMessagesOnce(node);
     connman().FlushSendBuffer(node);
-    SyncSignals();
+    // PeerManager's asynchronous validation callbacks (BlockConnected, UpdatedBlockTip ...) only follow block processing
+    if (type == NetMsgType::BLOCK || type == NetMsgType::CMPCTBLOCK || type == NetMsgType::BLOCKTXN || type == NetMsgType::HEADERS || type == NetMsgType::GETBLOCKS) SyncSignals();
     return true;
 }
 
@@ -778,7 +779,6 @@ bool Net::Process(int p)
     rec.node->fPauseSend = false;
     const bool more = connman().ProcessMessagesOnce(*rec.node);
     connman().FlushSendBuffer(*rec.node);
-    SyncSignals();
     return more;
 }
 
